@@ -13,16 +13,32 @@ MANIFEST = {
             "OnLaunch (new instance) inside the restart is how try_restarted/start_instance are built and is decided per run by step "
             "equality with the model and the C03 monitors.",
     "note": "Partial: 'OnTerminate before own OnTerminated' and the exact restart sequence are per-run (correspondence + monitors), not "
-            "theorems. Four defects were repaired (restart only from Alive, terminated actor handled queued messages, restart behind "
-            "pending messages, lifecycle-handler panics). Trusted: Coq kernel+vm_compute, hand-written kernel model tied by lockstep replay.",
+            "theorems. C03_launch_first is about the model, whose spawn registers the address and queues OnLaunch in one step; in the code "
+            "these were two steps of ActorOf with a window in between (a message sent to the new address was handled before OnLaunch: "
+            "13 of 3000 spawns in findings/C03-message-before-onlaunch_demo_test.go) — repaired by bde59a1 (mailbox created suspended "
+            "until OnLaunch is taken up) and watched on every run by the actor-level harness c01turns (C03:turns:*). Six defects were "
+            "repaired (restart only from Alive, no user message while restarting, terminated actor handled queued messages, restart behind "
+            "pending messages, lifecycle-handler panics, message before OnLaunch). Trusted: Coq kernel+vm_compute, hand-written kernel model tied by lockstep replay.",
     "technique": "Coq proof (trace-indexed invariant over every run) on a message-step kernel model + lockstep differential replay of the "
                  "real actor system inside Coq",
 }
 
 
+TURNS_TRUSTED = [
+    "the atomicity of creation that the kernel model assumes (spawn = registration of the address AND queuing of OnLaunch in one step) is "
+    "not a step of the lockstep harness; it is checked on the real system by harness/cmd/c01turns (real goroutines, every entry point "
+    "fired at freshly created actors; monitor C03:turns:user-message-before-OnLaunch) — sampled, not proved",
+]
+
+
 def check(ctx):
-    return K.check(ctx, "C03", ["C03:", "kernel:"], "DESIGN.md §6 C03")
+    # the second sub-harness is C01's actor-level harness, run here for its C03 monitor: a message sent to the address of an
+    # actor whose parent is still inside ActorOf must not be handled before OnLaunch (defect repaired by /repo bde59a1)
+    return K.check(ctx, "C03", ["C03:", "kernel:"], "DESIGN.md §6 C03",
+                   extra_subs=[{"pkg": "c01turns", "sub": "turns", "kinds": ["C03:turns:"], "args": ["-n", "800"]},
+                               {"pkg": "c03launch", "sub": "launch", "kinds": ["C03:launch:"], "coq": False}],
+                   extra_trusted=TURNS_TRUSTED, extra_dirs=["C01"])
 
 
 def replay(ctx, path):
-    return K.replay(ctx, path)
+    return K.replay(ctx, path, extra_pkgs={"turns": "c01turns", "launch": "c03launch"})
